@@ -14,8 +14,9 @@ for f in os.listdir(src):
     elif os.path.getsize(p) < 200000:
         shutil.copyfile(p, os.path.join(dst, f))
 # the patch as it applies to /repo's HEAD
-diff = subprocess.run(["git", "-C", wt, "diff"], capture_output=True, text=True).stdout
-open(os.path.join(dst, "patch.diff"), "w").write(diff)
+# bytes, not text: some files of the repository have CRLF line ends, which text mode would drop
+diff = subprocess.run(["git", "-C", wt, "diff"], capture_output=True).stdout
+open(os.path.join(dst, "patch.diff"), "wb").write(diff)
 base = subprocess.run(["git", "-C", wt, "rev-parse", "HEAD"], capture_output=True, text=True).stdout.strip()
 meta = {"property": prop, "base_commit": base, "needs_to_manifest": needs, "detected_by": json.loads(detected),
         "what_i_ran": ["cargo nextest run --workspace --no-fail-fast --offline in the scratch worktree with the change applied: 533 passed (confirmed by me)",
